@@ -82,10 +82,10 @@ func main() {
 	type rec struct {
 		kind, rest string
 	}
-	var seg []rec        // records since the last function entry, not yet committed
-	var segStart uint64  // address of that entry (0: no open segment)
+	var seg []rec       // records since the last function entry, not yet committed
+	var segStart uint64 // address of that entry (0: no open segment)
 	segInstr := 0
-	segLeft := false     // the segment ended by leaving the observed code
+	segLeft := false // the segment ended by leaving the observed code
 	commit := func() {
 		for _, r := range seg {
 			n++
